@@ -564,6 +564,27 @@ func (w *Worker) apply(st *Stim) {
 		w.Race(st.Plan)
 	case "authfile":
 		w.authFile(st)
+	case "waitunban":
+		// real time: wait (bounded by Count ms) until the pool of node N is no longer banned, i.e. until the pool's health
+		// monitor (every 5 s) has found the node reachable again
+		deadline := time.Now().Add(time.Duration(st.Count) * time.Millisecond)
+		addr := ""
+		if n := w.Cl.Node(st.N); n != nil {
+			addr = n.Addr
+		}
+		for time.Now().Before(deadline) {
+			banned := false
+			for _, p := range core.VerifSnapshot(true).Pools {
+				if p.Addr == addr && p.Banned {
+					banned = true
+				}
+			}
+			if !banned {
+				break
+			}
+			time.Sleep(100 * time.Millisecond)
+		}
+		w.Log.Add(Event{Ev: "waitunban", N: st.N})
 	case "hshold":
 		w.Cl.HoldReadonly = st.Count == 1
 	case "hsrelease":
